@@ -1,6 +1,6 @@
 // Command probe19 prints the C19 differential-probe lines (see package probe19).
 //
-//	probe19 -seed 1 -n 2000 [-type substring] > lines.txt
+//	probe19 -seed 1 -n 2000 [-type substring] [-core] > lines.txt
 package main
 
 import (
@@ -15,9 +15,10 @@ func main() {
 	seed := flag.Int64("seed", 1, "random seed")
 	n := flag.Int("n", 2000, "number of values (distributed round-robin over the covered types)")
 	filter := flag.String("type", "", "only types whose proto name contains this substring")
+	core := flag.Bool("core", false, "only the core types (current-version msgs, stored records, params, genesis; marked * in the type list)")
 	flag.Parse()
 
-	err := probe19.Run(probe19.Config{Seed: *seed, N: *n, Filter: *filter, Out: os.Stdout, Log: os.Stderr})
+	err := probe19.Run(probe19.Config{Seed: *seed, N: *n, Filter: *filter, Core: *core, Out: os.Stdout, Log: os.Stderr})
 	if err != nil {
 		fmt.Fprintln(os.Stderr, "probe19: ERROR:", err)
 		os.Exit(1)
